@@ -119,7 +119,8 @@ func runPersistCase(c persistCase) *Violation {
 		if e != nil {
 			return fmt.Errorf("WriteTo: %w", e)
 		}
-		path, e = drive.Persist(seg, "c04")
+		// every other batch is persisted onto a name reserved beforehand (an empty file)
+		path, e = drive.PersistReserved(seg, "c04", len(c.Batch.Docs)%2 == 1)
 		if e != nil {
 			return fmt.Errorf("Persist: %w", e)
 		}
